@@ -1464,6 +1464,9 @@ func (e *Engine) toSMTString(st *State, v Value) *Term {
 		if !ok {
 			unsup("string over non-byte array")
 		}
+		if arr.FromStr != nil && x.Off.K && x.Off.I.Sign() == 0 && x.Len.S == arr.N.S {
+			return arr.FromStr // string([]byte(s)) of an unmodified copy
+		}
 		if x.Len.K && x.Off.K {
 			n := int(x.Len.I.Int64())
 			parts := make([]*Term, 0, n)
